@@ -87,7 +87,8 @@ impl World {
             ws.push(format!("{},{},{},{},{},{},{}", wnum(id), w.status, w.capacity.pipelines_running, w.capacity.max_pipelines,
                 w.capacity.cpu_cores, clock::verif_ms_of(w.last_heartbeat), if a.is_empty() { "-".to_string() } else { a.join("+") }));
         }
-        let gkeys: Vec<String> = self.coord.pipeline_groups.keys().cloned().collect();
+        let mut gkeys: Vec<String> = self.coord.pipeline_groups.keys().cloned().collect();
+        gkeys.sort_by_key(|k| self.gids.get(k).copied().unwrap_or(u64::MAX));
         let mut ps: Vec<(u64, String, String)> = Vec::new();
         let mut gs: Vec<u64> = Vec::new();
         for g in gkeys {
@@ -100,8 +101,12 @@ impl World {
         }
         ps.sort();
         gs.sort();
-        format!("W[{}] P[{}] G[{}]", ws.join(";"), ps.iter().map(|p| p.2.clone()).collect::<Vec<_>>().join(";"),
-            gs.iter().map(|g| g.to_string()).collect::<Vec<_>>().join(","))
+        let mut nr: Vec<u64> = self.coord.pipeline_groups.iter()
+            .filter(|(_, g)| g.status != varpulis_cluster::pipeline_group::GroupStatus::Running)
+            .map(|(k, _)| self.gids.get(k).copied().unwrap_or(0)).collect();
+        nr.sort();
+        format!("W[{}] P[{}] G[{}] S[{}]", ws.join(";"), ps.iter().map(|p| p.2.clone()).collect::<Vec<_>>().join(";"),
+            gs.iter().map(|g| g.to_string()).collect::<Vec<_>>().join(","), nr.iter().map(|g| g.to_string()).collect::<Vec<_>>().join(","))
     }
     fn emit(&mut self, ctx: &mut Ctx, op: &str, answer: &str) {
         let d = self.dump();
